@@ -74,6 +74,9 @@ MUTANTS = [
 
 # (file, old, new, note) — behaviour-preserving; every check must stay silent
 BENIGN = [
+    (H, "        response.error_for_status_ref()?;\n        let response_body = response.text().await?;\n        let response = yaserde::de::from_str(&response_body).map_err(SoapError::YaserdeError)?;\n        Ok(response)\n    }\n}",
+     "        ensure_success(&response)?;\n        let response_body = response.text().await?;\n        let response = yaserde::de::from_str(&response_body).map_err(SoapError::YaserdeError)?;\n        Ok(response)\n    }\n\n    fn ensure_success(response: &reqwest::Response) -> SoapResult<()> {\n        response.error_for_status_ref()?;\n        Ok(())\n    }\n}",
+     "extract the status check into a private fn of the helper module"),
     (H, "let response_body = response.text().await?;\n        let response = yaserde::de::from_str(&response_body)", "let text_of_reply = response.text().await?;\n        let response = yaserde::de::from_str(&text_of_reply)", "rename a local in the helper"),
     (H, "            if let Some(c) = self {\n                c.check_restrictions(restrictions)?;\n            }\n            Ok(())", "            match self {\n                Some(c) => c.check_restrictions(restrictions),\n                None => Ok(()),\n            }", "if-let -> match in the Option impl"),
     (FIELD, 'node.attribute("minOccurs") == Some("0") || parent_is_optional || is_choice', 'Some("0") == node.attribute("minOccurs") || parent_is_optional || is_choice', "swap equality operands"),
